@@ -1,6 +1,6 @@
 import Psa.Admit
 import Psa.DryRun
-/-! ValidateNamespace and the existing-pod dry run. -/
+/-! ValidateNamespace, the existing-pod dry run, and the top-level dispatch `validate`. -/
 namespace PSA
 
 /-- prioritizePods: state = (kept in order, later siblings in order, controller uids seen) -/
@@ -21,56 +21,105 @@ def loopChecked (n : Nat) (expireAfter : Option Nat) : Nat :=
   | some k => if k < n then k + 1 else n
   | none => n
 
-def reasonText (a : Agg) : Str := (a.reasons.intersperse b!", ").flatten    -- strings.Join(reasons, ", ")
+/-- decoratePodWarnings -/
+def decorate (g : Group) : Str :=
+  if g.count = 0 then g.warning
+  else if g.count = 1 then g.first ++ b!": " ++ g.warning
+  else if g.count = 2 then g.first ++ b!" (and 1 other pod): " ++ g.warning
+  else g.first ++ b!" (and " ++ itoa (g.count - 1) ++ b!" other pods): " ++ g.warning
 
+/-- the pods the loop actually evaluates: prioritised, capped, cut at the expiry index -/
+def dryRunEvaluated (exRC : List Str) (maxPods : Nat) (pods : List PodObj) (expireAfter : Option Nat) : List PodObj :=
+  let capped := (prioritize exRC pods).take maxPods
+  capped.take (loopChecked capped.length expireAfter)
+
+/-- (pod name, aggregate reason text) of the evaluated pods that violate -/
+def dryRunViolations (ev : Ev) (lv : LevelVersion) (evald : List PodObj) : List (Str × Str) :=
+  evald.filterMap (fun p => let a := aggregate (ev lv p); if a.allowed then none else some (p.name, a.reasonText))
+
+/-- EvaluatePodsInNamespace after a successful listing -/
 def dryRun (ev : Ev) (exRC : List Str) (maxPods : Nat) (nsName : Str) (lv : LevelVersion)
     (pods : List PodObj) (expireAfter : Option Nat) : List Warning × List (LevelVersion × Str) :=
-  let pr := prioritize exRC pods
-  let total := pr.length
-  let capped := pr.take maxPods
-  let checked := loopChecked capped.length expireAfter
-  let evald := capped.take checked
-  let W := evald.filterMap (fun p => let a := aggregate (ev lv p); if a.allowed then none else some (p.name, reasonText a))
-  let gs := groupsLoop W
-  let lines := gs.map (fun g => (g.first, g.count - 1, g.warning))
-  -- decorate, then sort.Strings on the decorated text; here: sort on (first, others, reasons) rendered later
-  ((if checked < total then [Warning.onlyChecked checked total] else []) ++
+  let total := (prioritize exRC pods).length
+  let evald := dryRunEvaluated exRC maxPods pods expireAfter
+  let gs := groupsLoop (dryRunViolations ev lv evald)
+  ((if evald.length < total then [Warning.onlyChecked evald.length total] else []) ++
    (if gs.isEmpty then [] else [Warning.header nsName lv]) ++
-   lines.map (fun l => Warning.podLine l.1 l.2.1 l.2.2),
+   (sortStrs (gs.map decorate)).map Warning.podLine,
    evald.map (fun p => (lv, p.name)))
 
-theorem loopChecked_le (n : Nat) (e : Option Nat) : loopChecked n e ≤ n := by
-  unfold loopChecked; split <;> (try split) <;> omega
+/-- the dry-run timeout: min(default, remaining/2) with Go's truncating division -/
+def dryRunTimeout (dflt : Int) (remaining : Option Int) : Int :=
+  match remaining with
+  | some rem => if dflt > rem.tdiv 2 then rem.tdiv 2 else dflt
+  | none => dflt
 
-/-- C12: never more than the cap is evaluated, whatever the population and whenever the context expires -/
-theorem C12_cap (ev : Ev) (exRC : List Str) (maxPods : Nat) (ns : Str) (lv : LevelVersion) (pods : List PodObj)
-    (e : Option Nat) : (dryRun ev exRC maxPods ns lv pods e).2.length ≤ maxPods := by
-  simp only [dryRun, List.length_map, List.length_take]
-  have := loopChecked_le (min maxPods (prioritize exRC pods).length) e
-  omega
+def LevelVersion.equivalent (a b : LevelVersion) : Bool :=
+  (a.level == .privileged && b.level == .privileged) || a == b
+def Policy.equivalent (p q : Policy) : Bool :=
+  p.enforce.equivalent q.enforce && p.audit.equivalent q.audit && p.warn.equivalent q.warn
 
-/-- C12: the "only checked the first c of t" line appears exactly when fewer pods were evaluated than exist,
-    with exactly the number evaluated and the number of (non-exempt) pods -/
-theorem C12_honest (ev : Ev) (exRC : List Str) (maxPods : Nat) (ns : Str) (lv : LevelVersion) (pods : List PodObj)
-    (e : Option Nat) :
-    let r := dryRun ev exRC maxPods ns lv pods e
-    let total := (prioritize exRC pods).length
-    (Warning.onlyChecked r.2.length total ∈ r.1 ↔ r.2.length < total) ∧
-    (∀ c t, Warning.onlyChecked c t ∈ r.1 → c = r.2.length ∧ t = total) := by
-  simp only [dryRun, List.length_map, List.length_take]
-  have hle := loopChecked_le (min maxPods (prioritize exRC pods).length) e
-  have hmin : min (loopChecked (min maxPods (prioritize exRC pods).length) e) (min maxPods (prioritize exRC pods).length)
-      = loopChecked (min maxPods (prioritize exRC pods).length) e := by omega
-  rw [hmin]
-  generalize loopChecked (min maxPods (prioritize exRC pods).length) e = c at *
-  constructor
-  · by_cases h : c < (prioritize exRC pods).length <;> simp [h]
-  · intro c' t' hm
-    by_cases h : c < (prioritize exRC pods).length
-    · simp [h] at hm
-      exact hm
-    · simp [h] at hm
-      try (split at hm <;> simp at hm)
+/-- exemptNamespaceWarning -/
+def exemptNamespaceWarning (defaults : Policy) (nsName : Str) (pol : Policy) (labels : Labels) : Option Str :=
+  if pol.fullyPrivileged || pol.equivalent defaults then none
+  else
+    let has (k : Str) : Bool := (labels.get k).isSome
+    let part (tag : Str) (lv : LevelVersion) (k kv : Str) : List Str :=
+      if lv.level != .privileged && (has k || has kv) then [tag ++ lv.str] else []
+    let parts := part b!"enforce=" pol.enforce kEnforce kEnforceV ++ part b!"audit=" pol.audit kAudit kAuditV ++
+      part b!"warn=" pol.warn kWarn kWarnV
+    some (b!"namespace " ++ goQuote nsName ++ b!" is exempt from Pod Security, and the policy (" ++ Str.join b!", " parts ++
+      b!") will be ignored")
 
-#print axioms C12_honest
+structure Limits where
+  maxPods : Nat
+  timeout : Int   -- ns
+
+def invalidResp (errs : List FieldErr) : Resp := { allowed := false, code := 422, fieldErrs := errs }
+def nsErrResp : Resp := errResp 400
+
+def exemptNsResp (cfg : Config) (nsName : Str) (pol : Policy) (labels : Labels) : Resp :=
+  match exemptNamespaceWarning cfg.defaults nsName pol labels with
+  | some t => { allowed := true, warnings := [.exemptNamespace t] }
+  | none => allowPlain
+
+/-- the four reasons to skip the dry run, in the order the code tests them (the fourth, exemption, is separate) -/
+def skipDryRun (newE oldE : LevelVersion) : Bool :=
+  newE == oldE || newE.level == .privileged || (newE.version == oldE.version && decide (compareLevels newE.level oldE.level < 1))
+
+def validateNamespace (pv : Str → Ver × Bool) (cfg : Config) (lim : Limits) (w : World Ev) (r : Request) : Resp × Eff :=
+  if r.sub ≠ [] then (allowPlain, {})
+  else match r.obj with
+  | .ok (.ns name labels) =>
+    let (newPol, newErrs) := policyToEvaluate pv labels cfg.defaults
+    match r.op with
+    | .create =>
+      if !newErrs.isEmpty then (invalidResp newErrs, {})
+      else if exempt r.ns cfg.exNamespaces then (exemptNsResp cfg name newPol labels, {})
+      else (allowPlain, {})
+    | .update =>
+      match r.old with
+      | .ok (.ns _ oldLabels) =>
+        let (oldPol, oldErrs) := policyToEvaluate pv oldLabels cfg.defaults
+        if !newErrs.isEmpty && (oldErrs.isEmpty || newErrs != oldErrs) then (invalidResp newErrs, {})
+        else if skipDryRun newPol.enforce oldPol.enforce then (allowPlain, {})
+        else if exempt r.ns cfg.exNamespaces then (exemptNsResp cfg name newPol labels, {})
+        else
+          let t := dryRunTimeout lim.timeout w.remaining
+          match w.listPods with
+          | .error _ => ({ allowed := true, warnings := [.listFailed] }, { listCalls := 1, listTimeout := t })
+          | .ok pods =>
+            let (ws, calls) := dryRun w.ev cfg.exRuntimeClasses lim.maxPods name newPol.enforce pods w.expireAfter
+            ({ allowed := true, warnings := ws }, { evalCalls := calls, listCalls := 1, listTimeout := t })
+      | _ => (nsErrResp, {})
+    | _ => (allowPlain, {})
+  | _ => (nsErrResp, {})
+
+/-- Admission.Validate -/
+def validate (pv : Str → Ver × Bool) (cfg : Config) (lim : Limits) (w : World Ev) (r : Request) : Resp × Eff :=
+  match r.res with
+  | .namespaces => validateNamespace pv cfg lim w r
+  | .pods => validatePod pv cfg w r
+  | .other => validateController pv cfg w r
+
 end PSA
